@@ -5,9 +5,9 @@ from ..framework import canon
 PROP = "C02"
 LEAN_TARGETS = ["Eliot.Properties.C02"]
 AUDIT = "Eliot/Audit/C02.lean"
+SKELETON_TARGETS = {"Sys.C02.skeleton_E6_order": "Eliot.Properties.C02Skel"}
 THEOREMS = ["Sys.C02.inv_preserved", "Sys.C02.reachable_inv", "Sys.C02.positions_contiguous", "Sys.C02.levels_unique",
             "Sys.C02.actions_unique", "Sys.C02.child_extends_parent", "Sys.C02.reserved_position_unique", "Sys.C02.message_at_slot"]
-GENERATED_OBLIGATIONS = ["Sys.C02.skeleton_E6_order"]
 RULE = ("programs of the core language (no failing field serializers, as the property states) with 2-4 destinations and failure masks on "
         "all but one of them; (a) structured batch (with-blocks, tasks, try/except, tracebacks, extractors that raise, remote continuation "
         "of every reserved id) checked for uniqueness, contiguity 1..n, start at 1, end at n, emission order = level order on the healthy "
@@ -18,7 +18,7 @@ ASSUMPTIONS = ["no failing field serializers (stated in the property's quantifie
                "global fields do not override task_uuid/task_level/timestamp"]
 EXPLANATION = "slot invariant (contiguity + pairwise distinct places) preserved by every basic step, lifted to all programs"
 BASE = dict(p_ser_fail=0.0, p_missing_field=0.0, p_late_add=0.0, p_remove=0.0, n_dests=(2, 4), p_dest_fail=0.3, p_globals=0.15,
-            p_ext_fail=0.4, p_extractor=0.6)
+            p_ext_fail=0.4, p_extractor=0.6, p_reserved=0.15)
 STRUCT = dict(BASE, p_handles=0.0, p_remote=0.3)
 UNSTRUCT = dict(BASE, p_handles=0.6, p_remote=0.4)
 
